@@ -427,3 +427,28 @@ Proof.
   destruct (pr_run p (DF x) ps) as [[[dd pv'] ops']|e] eqn:P; simpl in Hx; [|discriminate].
   injection Hx as <-. eauto.
 Qed.
+
+(* ---- a parameter list that names one parameter twice (first_dup, checked by construct) ---- *)
+Lemma smem_In x l : smem x l = true <-> In x l.
+Proof.
+  induction l as [|h t IH]; simpl; [split; [discriminate|tauto]|].
+  unfold smem in *; simpl. rewrite orb_true_iff, IH, String.eqb_eq. split; intros [H|H]; auto.
+Qed.
+Lemma first_dup_none_iff l : first_dup l = None <-> NoDup l.
+Proof.
+  induction l as [|h t IH]; simpl; [split; [constructor|reflexivity]|].
+  destruct (smem h t) eqn:E.
+  - split; [discriminate|]. intros N. inversion N as [|? ? Hn _]; subst. exfalso. apply Hn. apply smem_In. exact E.
+  - rewrite IH. split.
+    + intros N. constructor; [|exact N]. intros Hin. apply smem_In in Hin. congruence.
+    + intros N. inversion N; assumption.
+Qed.
+Theorem duplicate_parameter_rejected n : ~ NoDup (pr_params (n_proc n)) -> exists x, construct n = Fail (Err SConstruct "ValueError" x).
+Proof.
+  intros H. unfold construct. destruct (first_dup (pr_params (n_proc n))) as [x|] eqn:E; [exists x; reflexivity|].
+  exfalso. apply H. apply first_dup_none_iff. exact E.
+Qed.
+Theorem constructed_has_distinct_parameters n u : construct n = Ok u -> NoDup (pr_params (n_proc n)).
+Proof.
+  unfold construct. destruct (first_dup (pr_params (n_proc n))) eqn:E; [discriminate|]. intros _. apply first_dup_none_iff. exact E.
+Qed.
